@@ -931,4 +931,53 @@ def laws(rng, tier, ctx):
 
 
 shrink = W.shrink
-MATCHERS = {}
+def _plain(sx):
+    """the s-expression with every dict-subclass tag read as a plain dict"""
+    if isinstance(sx, str):
+        return sx
+    return ['D' if sx[0] in ('DS', 'DD') else sx[0]] + [_plain(y) for y in sx[1:]] if sx and isinstance(sx[0], str) else [_plain(y) for y in sx]
+
+
+def _unparse(sx):
+    return sx if isinstance(sx, str) else '(' + ' '.join(_unparse(y) for y in sx) + ')'
+
+
+def _graft(t_in, r_plain):
+    """the result for the plain-dict spelling, with every subtree that sits inside a dict SUBCLASS of the input put back as it went in"""
+    if isinstance(t_in, str) or isinstance(r_plain, str):
+        return r_plain
+    if t_in and t_in[0] in ('DS', 'DD'):
+        return _plain(t_in)
+    if len(t_in) != len(r_plain):
+        return r_plain
+    return [_graft(x, y) for x, y in zip(t_in, r_plain)]
+
+
+def dict_subclass_left_unaligned(f):
+    """C03-S1: df_sync / df_reindex over a tree holding an instance of a dict SUBCLASS (class MyDict(dict), collections.defaultdict) with
+    timeseries inside.  Matches ONLY the symptom of that finding: the implementation's answer is exactly its answer for the same tree
+    spelt with plain dicts, except that everything inside a subclass instance comes back as it went in.  A raise, a changed class, a wrong
+    value outside the subclass or a half-aligned series inside it is not this finding and stays a violation."""
+    line = f.case['lines'][0]
+    if len(f.case['lines']) != 1 or not ('(DS ' in line or '(DD ' in line):
+        return False
+    sx = proto.parse(line)
+    if sx[1] not in ('sync', 'reindex'):
+        return False
+    def holds_ts(t, inside):
+        if isinstance(t, str):
+            return False
+        if t and t[0] in ('ts', 'df'):
+            return inside
+        return any(holds_ts(y, inside or t[0] in ('DS', 'DD')) for y in t[1:])
+    if not holds_ts(sx[2], False):
+        return False
+    got = run_line(None, sx)
+    plain = run_line(None, proto.parse(_unparse(_plain(sx))))
+    if not (got.startswith('ok ') and plain.startswith('ok ')):
+        return False
+    want = _graft(sx[2], proto.parse(plain[3:]))
+    return proto.same_reply('ok ' + _unparse(want), got) and got != plain
+
+
+MATCHERS = {'dict_subclass_left_unaligned': dict_subclass_left_unaligned}
